@@ -408,7 +408,7 @@ Qed.
 
 Definition doc_header_fact (ca : bytes * Z) : bool :=
   match assoc (fst ca) header_check_table with Some ar => ar =? snd ca | None => false end
-  && match header_cmd (fst ca) with Some _ => true | None => false end.
+  && match header_cmd (fst ca) with Some (_, HSet) | Some (_, HAdd) | Some (_, HDel) => true | _ => false end.
 Lemma doc_header_facts : forallb doc_header_fact doc_header = true.
 Proof. vm_compute. reflexivity. Qed.
 Lemma valid_header_accepted c p :
@@ -421,7 +421,7 @@ Proof.
   apply andb_true_iff in HF. destruct HF as [Ht Hc].
   unfold header_accepts, table_accepts.
   destruct (assoc c header_check_table) as [ar'|]; [|discriminate]. apply Z.eqb_eq in Ht. subst ar'.
-  rewrite Hl, Hne, orb_true_r. split; [reflexivity|]. destruct (header_cmd c); [discriminate|discriminate].
+  rewrite Hl, Hne, orb_true_r. cbn [andb]. destruct (header_cmd c) as [[b []]|]; try discriminate; split; try reflexivity; discriminate.
 Qed.
 
 Definition doc_redirect_fact (c : bytes) : bool :=
@@ -475,14 +475,30 @@ Proof.
   destruct (bytes_eqb k k') eqn:E; simpl; [exact IH|]. rewrite E. simpl. rewrite IH. reflexivity.
 Qed.
 
-Lemma header_effect_model c p a b a' b' :
-  header_run c p a b = Some (a', b') -> header_effect c p a b a' b' = true.
+Lemma hdr_effect_model c p h : hdr_effect c p h (header_apply c p h) = true.
+Proof.
+  destruct c; unfold hdr_effect, header_apply, hdr_add; try reflexivity;
+    rewrite ?hdr_del_set, ?hdr_get_set, ?hdr_del_del, ?hdr_get_del, hdr_eqb_refl; cbn [andb]; apply val_eqb_refl.
+Qed.
+Lemma header_effect_model vars c p a b a' b' :
+  header_run vars c p a b = Some (a', b') -> header_effect vars c p a b a' b' = true.
 Proof.
   unfold header_run, header_effect. destruct (header_accepts c p); [|discriminate].
   destruct (header_cmd c) as [[is_req hc]|]; [|discriminate].
-  destruct is_req; intros H; injection H as <- <-; rewrite hdr_eqb_refl; cbn [andb];
-    destruct hc; unfold header_apply, hdr_add;
-    rewrite ?hdr_del_set, ?hdr_get_set, ?hdr_del_del, ?hdr_get_del, hdr_eqb_refl; cbn [andb]; apply val_eqb_refl.
+  destruct is_req; intros H; injection H as <- <-; rewrite hdr_eqb_refl; cbn [andb]; apply hdr_effect_model.
+Qed.
+Lemma rewrite_effect_model c p u : rewrite_effect c p u (action_do c p u) = true.
+Proof. unfold rewrite_effect, action_do. destruct (rw_cmd_of c); [apply rw_effect_model|reflexivity]. Qed.
+Lemma direct_effect_model c p u h u' h' :
+  direct_run c p u h = Some (u', h') -> direct_effect (to_upper c) p u h u' h' = true.
+Proof.
+  unfold direct_run, direct_effect. destruct (action_file_check c p); [|discriminate].
+  destruct (header_cmd (to_upper c)) as [[[] []]|]; intros H; injection H as <- <-;
+    rewrite ?url_eqb_refl, ?hdr_eqb_refl; cbn [andb]; try apply hdr_effect_model; apply rewrite_effect_model.
+Qed.
+Lemma valid_rewrite_checked c p : valid_rewrite_conf c p = true -> action_file_check c p = true.
+Proof.
+  intros H. apply valid_rewrite_accepted in H. unfold rewrite_accepts in H. apply andb_true_iff in H. apply H.
 Qed.
 
 Lemma redirect_effect_model c p u t : redirect_run c p u = Some t -> redirect_effect c p u t = true.
@@ -493,14 +509,14 @@ Qed.
 
 Lemma spec_model ci : spec ci (model ci) = true.
 Proof.
-  destruct ci as [c p u | c p a b | c p u]; unfold model, spec.
+  destruct ci as [c p u | c p a b vars | c p u | c p u h]; unfold model, spec.
   - destruct (rewrite_run c p u) as [u'|] eqn:E.
     + unfold rewrite_run in E. destruct (rewrite_accepts c p); [|discriminate]. injection E as <-.
       unfold rewrite_effect, action_do. destruct (rw_cmd_of (to_upper c)); [apply rw_effect_model|reflexivity].
     + unfold rewrite_run in E. destruct (rewrite_accepts c p) eqn:Ea; [discriminate|].
       apply negb_true_iff. destruct (valid_rewrite_conf c p) eqn:Ev; [|reflexivity].
       rewrite (valid_rewrite_accepted _ _ Ev) in Ea. discriminate.
-  - destruct (header_run c p a b) as [[a' b']|] eqn:E.
+  - destruct (header_run vars c p a b) as [[a' b']|] eqn:E.
     + apply header_effect_model. exact E.
     + apply negb_true_iff. destruct (valid_header_conf c p) eqn:Ev; [|reflexivity].
       destruct (valid_header_accepted _ _ Ev) as [Ha Hc]. unfold header_run in E. rewrite Ha in E.
@@ -510,6 +526,11 @@ Proof.
     + apply negb_true_iff. destruct (valid_redirect_conf c p) eqn:Ev; [|reflexivity].
       destruct (valid_redirect_accepted _ _ Ev) as [Ha Hc]. unfold redirect_run in E. rewrite Ha in E.
       destruct (rd_cmd_of c); [discriminate|congruence].
+  - destruct (direct_run c p u h) as [[u' h']|] eqn:E.
+    + apply direct_effect_model. exact E.
+    + apply negb_true_iff. destruct (valid_rewrite_conf c p) eqn:Ev; [|reflexivity].
+      unfold direct_run in E. rewrite (valid_rewrite_checked _ _ Ev) in E.
+      destruct (header_cmd (to_upper c)) as [[[] []]|]; discriminate.
 Qed.
 
 (* ---- wire round trip ---- *)
@@ -526,16 +547,26 @@ Proof.
 Qed.
 Lemma dec_enc_out ci : dec_out ci (enc_out (model ci)) = Some (model ci).
 Proof.
-  destruct ci as [c p u | c p a b | c p u]; unfold model.
+  destruct ci as [c p u | c p a b vars | c p u | c p u h0]; unfold model.
   - destruct (rewrite_run c p u) as [[h pa q]|]; reflexivity.
-  - destruct (header_run c p a b) as [[a' b']|]; [|reflexivity].
+  - destruct (header_run vars c p a b) as [[a' b']|]; [|reflexivity].
     pose proof (dec_enc_hdr a') as Ha. pose proof (dec_enc_hdr b') as Hb.
     unfold enc_out, dec_out. unfold enc_hdr in *. rewrite Ha, Hb. reflexivity.
   - destruct (redirect_run c p u) as [t|]; reflexivity.
+  - destruct (direct_run c p u h0) as [[[h pa q] h']|]; [|reflexivity].
+    pose proof (dec_enc_hdr h') as Hb.
+    unfold enc_out, dec_out. unfold enc_hdr in *. cbn [enc_url dec_url u_host u_path u_query]. rewrite Hb. reflexivity.
 Qed.
 
-Lemma prop_C49_of_model i : dec_in i <> None -> prop_C49 i (run_C49 i) = true.
+Lemma prop_C49_of_model i : wf_C49 i = true -> prop_C49 i (run_C49 i) = true.
 Proof.
-  unfold prop_C49, run_C49. destruct (dec_in i) as [ci|]; [intros _|congruence].
+  unfold wf_C49, prop_C49, run_C49. destruct (dec_in i) as [ci|]; [intros _|discriminate].
   rewrite dec_enc_out. apply spec_model.
 Qed.
+
+Definition ex_corpus_case : val :=
+  VL [VZ 1; VB (bs "QUERY_DEL"%string); VL [VB (bs "a"%string)];
+      VL [VB (bs "example.com"%string); VB (bs "/"%string); VB (bs "%61=1&b=2&a&a=3"%string)]].
+Lemma wf_example : wf_C49 ex_corpus_case = true /\ kf_C49 ex_corpus_case = 0
+  /\ run_C49 ex_corpus_case = VL [VB (bs "example.com"%string); VB (bs "/"%string); VB (bs "b=2"%string)].
+Proof. vm_compute. repeat split. Qed.
